@@ -52,6 +52,9 @@ func menu(thorough bool) []authsrv.Fault {
 	for blk := 0; blk < 40; blk++ {
 		m = append(m, authsrv.Fault{Where: "inner.ciphertext", How: fmt.Sprintf("flip-block:%d", blk)})
 	}
+	for _, how := range []string{"pong", "resPQ-like", "unregistered"} {
+		m = append(m, authsrv.Fault{Where: "inner.kind", How: how}) // the decrypted answer is an object of another kind
+	}
 	m = append(m, authsrv.Fault{Where: "dh.kind", How: "fail"}, authsrv.Fault{Where: "gen.kind", How: "retry"}, authsrv.Fault{Where: "gen.kind", How: "fail"})
 	for step := 0; step < 3; step++ {
 		m = append(m, authsrv.Fault{Where: fmt.Sprintf("reply.kind@%d", step), How: "unrelated"})
@@ -109,13 +112,14 @@ func faultClass(f authsrv.Fault) string {
 
 func main() {
 	run := vr.New("C07", "fault_enumeration")
+	defer run.Recover()
 	freepass.MaybeReplay(run)
 	sched.OnSpin = func(frame string) {
 		run.Violation("hangs|cpu-spin|"+frame, "the key exchange never completes: a client thread has been computing inside "+frame+" for 120 s without reaching any synchronisation point (a loop that does not end); the exploration stops here", map[string]any{"fault": "cpu-spin", "frame": frame})
 		run.Truncated("stopped at a non-terminating computation in the library")
 		run.Finish()
 	}
-	run.Rule("a conformant exchange (reference server R3, real client under the controlled scheduler, default schedule) with exactly one fault from the menu: every echoed nonce/server_nonce/new_nonce_hash field of every reply x {bit flips, fresh value, the other nonce, zero}; fingerprint list {none matching, empty, halves swapped}; SHA-1 prefix bit flips, content change without fixing the prefix, ciphertext truncated by a block, odd length, a flipped bit in each ciphertext block; failure/retry constructors; an unrelated reply at each step; every fault alone and followed by each of 4 further server messages on the same connection after the abort (plain new_session_created, plain bad_server_salt, new_session_created sealed under the abandoned key, a second dh_gen_ok); plus key histories: after a conformant exchange with test key A, a client configured with key B against a server offering only the fingerprint of A (all 6 ordered pairs); all entries are run; non-trivial = distinct fault")
+	run.Rule("a conformant exchange (reference server R3, real client under the controlled scheduler, default schedule) with exactly one fault from the menu: every echoed nonce/server_nonce/new_nonce_hash field of every reply x {bit flips, fresh value, the other nonce, zero}; fingerprint list {none matching, empty, halves swapped}; SHA-1 prefix bit flips, content change without fixing the prefix, ciphertext truncated by a block, odd length, a flipped bit in each ciphertext block; failure/retry constructors; an unrelated reply at each step; a correctly sealed inner answer of another kind (pong, dh_gen_ok, unregistered id); every fault alone and followed by each of 4 further server messages on the same connection after the abort (plain new_session_created, plain bad_server_salt, new_session_created sealed under the abandoned key, a second dh_gen_ok); plus key histories: after a conformant exchange with test key A, a client configured with key B against a server offering only the fingerprint of A (all 6 ordered pairs); all entries are run; non-trivial = distinct fault")
 	run.Assume("the unfaulted exchange succeeds (checked first, and by C06)", "a fault that makes the server itself unable to continue (it never answers) is not in the menu: the client has no timeout, which is not what this property states")
 	base := hs.Base()
 	// sanity: the unfaulted exchange succeeds
